@@ -27,7 +27,7 @@ import vocab as V
 from engine import Finding, Result
 
 hx = V.hx
-ENCS = [None, "utf-8", "utf-16", "latin-1"]
+ENCS = [None, "utf-8", "utf-16", "latin-1", "utf-8-sig"]
 DIALS = [{}, {"delimiter": ";"}, {"delimiter": "\t"}, {"quoting": csv.QUOTE_ALL}, {"quotechar": "'"}]
 MUTATING = {"ins", "remove", "drop", "removeall", "update"}
 
@@ -102,6 +102,8 @@ class IORunner:
             open(self.path, "w").close()
             os.link(self.path, os.path.join(link_dir, "snapshot.csv"))
         self.undo = IO.install(S, self.path)
+        self.tzctx = C.ProcessTZ(case.get("tz"))
+        self.tzctx.__enter__()
         self.saved_tmp = tempfile.tempdir
         tempfile.tempdir = self.tmpdir
         from impl import ImplRunner
@@ -142,6 +144,7 @@ class IORunner:
             pass
         self.r.db = None
         self.undo()
+        self.tzctx.__exit__()
         tempfile.tempdir = self.saved_tmp
 
     def cleanup(self):
@@ -191,7 +194,7 @@ def gen_case(seed, prop, idx):
     auto = r.random() < 0.6
     case = {"cfg": ["cfg", "csv", "auto" if auto else "noauto"]}
     if prop == "C04":
-        case["enc"] = ENCS[idx % 4]
+        case["enc"] = ENCS[idx % 5]
         case["csv"] = DIALS[(idx // 4) % len(DIALS)]
         case["flush"] = (idx // 20) % 2 == 0 or r.random() < 0.5
         g.hard = True
@@ -205,6 +208,8 @@ def gen_case(seed, prop, idx):
         case["hardlink"] = True
     if idx % 4 == 2:
         case["ctx"] = True
+    if idx % 7 == 3:
+        case["tz"] = C.LOCAL_ZONES[(idx // 7) % len(C.LOCAL_ZONES)]     # the process's local zone
     if prop in ("C04", "C12", "C13") and idx % 9 == 4:
         case["mode"] = "w+"           # read-write, truncating when opened: rewrites must not truncate again
     import fam_hist
@@ -746,6 +751,23 @@ def mode_checks(root, tier):
     """C15: access modes. In mode 'r' every mutating call must raise and leave bytes and directories alone."""
     tf = C.import_tinyflux()
     findings, n = [], 0
+    # opening a database that does not exist read-only creates nothing, whatever create_dirs says
+    for cd in (False, True):
+        d0 = tempfile.mkdtemp(prefix="mode0_", dir=root)
+        missing = os.path.join(d0, "sub", "dir", "db.csv")
+        try:
+            db = tf.TinyFlux(missing, access_mode="r", create_dirs=cd)
+            opened = True
+            db.close()
+        except Exception:
+            opened = False
+        n += 1
+        left = sorted(os.listdir(d0))
+        if left or opened:
+            findings.append(Finding("impl-vs-spec", f"TinyFlux(<missing path>, access_mode='r', create_dirs={cd}): "
+                                    f"{'opened' if opened else 'raised'}, and left {left} behind in an empty directory",
+                                    dict(family="io-mode", op=f"open missing, create_dirs={cd}")))
+        shutil.rmtree(d0, ignore_errors=True)
     g = G.Gen(C.seed() + 4242)
     for trial in range(20 if tier == "quick" else 200):
         d = tempfile.mkdtemp(prefix="mode_", dir=root)
